@@ -57,7 +57,7 @@ class C12(core.Check):
         'rel:from-end', 'rel:from-start', 'slice:same-page', 'slice:other-page', 'w:non-byte-multiple', 'w:byte-multiple',
         'expect:ACCEPT', 'expect:REJECT', 'muted-statement', 'second-step-of-a-macro', 'value-as-expression',
         'kind:valid_address/indirect_numeric', 'kind:valid_address/deferred_numeric', 'output:none', 'output:none+listing',
-        'kind:sliced-address/zone-ends-inside-the-page']}
+        'kind:sliced-address/zone-ends-inside-the-page', 'numeric-keys-in:json', 'numeric-keys-in:yaml']}
 
     def one(self, conf, text, op, addr, tags, addr_bits=16, endian='big', zones=None, gz=None, origin=None, opcode_bits=8,
             fmt='json'):
@@ -81,7 +81,10 @@ class C12(core.Check):
             except encode.DontCare as e:
                 macro_exp = {'kind': 'DONT_CARE', 'why': str(e)}
         if encode.needs_yaml_keys(conf) if hasattr(encode, 'needs_yaml_keys') else _int_keys(conf):
-            fmt = 'yaml'
+            # numeric keys: numbers in YAML, strings in JSON (the only way JSON can write them) - every other case each
+            self._nk = getattr(self, '_nk', 0) + 1
+            fmt = 'yaml' if self._nk % 2 else 'json'
+            tags = list(tags) + ['numeric-keys-in:' + fmt]
         fn, itext = isamod.render_isa(isa, fmt)
         src = f'.org {addr}\ntst {text}\n.byte $EE\n'
         end = addr + 40
